@@ -133,16 +133,24 @@ def memSize : Nat := 65536
 def retMagic : Nat := 0xFFF0
 def spInit : Nat := 0xF000
 
+/-- byte memory in 256 pages of 256 bytes (a store copies one page, not the whole memory) -/
+abbrev PMem := Array (Array Nat)
+
+def PMem.get (m : PMem) (a : Nat) : Nat := (m.getD (a / 256) #[]).getD (a % 256) 0
+def PMem.set (m : PMem) (a v : Nat) : PMem :=
+  if a / 256 < m.size then m.modify (a / 256) (fun pg => pg.setIfInBounds (a % 256) v) else m
+
 structure Mach where
   regs : Array Nat
   pc : Nat
-  mem : Array Nat
+  mem : PMem
   deriving Inhabited
 
-def Mach.init : Mach := { regs := Array.replicate 32 0, pc := 0, mem := Array.replicate memSize 0 }
+def Mach.init : Mach :=
+  { regs := Array.replicate 32 0, pc := 0, mem := Array.replicate (memSize / 256) (Array.replicate 256 0) }
 
 def Mach.toSpec (m : Mach) : State :=
-  { regs := fun i => m.regs.getD i 0, pc := m.pc, mem := fun a => m.mem.getD a 0, csr := fun _ => 0 }
+  { regs := fun i => m.regs.getD i 0, pc := m.pc, mem := fun a => m.mem.get a, csr := fun _ => 0 }
 
 inductive RunR where
   | done (ret steps : Nat)
@@ -156,20 +164,20 @@ def access (s : State) : Instr → Option (Nat × Nat × Bool)
   | .store op _ rs1 off => some (addOff (s.get rs1) off, storeWidth op, true)
   | _ => none
 
-def writeBack (m : Array Nat) (s' : State) (a : Nat) : Nat → Array Nat
+def writeBack (m : PMem) (s' : State) (a : Nat) : Nat → PMem
   | 0 => m
-  | n + 1 => writeBack (m.setIfInBounds a (s'.mem a)) s' (a + 1) n
+  | n + 1 => writeBack (m.set a (s'.mem a)) s' (a + 1) n
 
 def runMach : Nat → Nat → Mach → Mach × RunR
   | 0, _, m => (m, .fuel)
   | fuel + 1, steps, m =>
     if m.pc == retMagic then (m, .done (m.regs.getD 10 0) steps) else
     if m.pc + 4 > memSize then (m, .fault "pc-outside-memory" m.pc steps) else
-    let b0 := m.mem.getD m.pc 0
-    let b1 := m.mem.getD (m.pc + 1) 0
+    let b0 := m.mem.get m.pc
+    let b1 := m.mem.get (m.pc + 1)
     let fetched : Option (Instr × Nat) :=
       if b0 % 4 = 3 then
-        (decode (b0 + 256 * b1 + 65536 * m.mem.getD (m.pc + 2) 0 + 16777216 * m.mem.getD (m.pc + 3) 0)).map (fun i => (i, 4))
+        (decode (b0 + 256 * b1 + 65536 * m.mem.get (m.pc + 2) + 16777216 * m.mem.get (m.pc + 3))).map (fun i => (i, 4))
       else (decodeC (b0 + 256 * b1)).map (fun c => (c.expand, 2))
     match fetched with
     | none => (m, .fault "undecodable" m.pc steps)
@@ -189,9 +197,9 @@ def runMach : Nat → Nat → Mach → Mach × RunR
           | _ => m.mem
         runMach fuel (steps + 1) { regs := regs, pc := s'.pc, mem := mem }
 
-def loadBytes (m : Array Nat) (a : Nat) : List Nat → Array Nat
+def loadBytes (m : PMem) (a : Nat) : List Nat → PMem
   | [] => m
-  | b :: r => loadBytes (m.setIfInBounds a b) (a + 1) r
+  | b :: r => loadBytes (m.set a b) (a + 1) r
 
 def setArgs (regs : Array Nat) : Nat → List Int → Array Nat
   | _, [] => regs
@@ -268,7 +276,7 @@ def step' (m : Mach) (line : String) : Mach × String :=
     | _, _, _ => (m, "bad-op")
   | ["rvdump", a, n] =>
     match nat? a, nat? n with
-    | some a, some n => (m, "ok " ++ toHex ((List.range n).map (fun k => m.mem.getD (a + k) 0)))
+    | some a, some n => (m, "ok " ++ toHex ((List.range n).map (fun k => m.mem.get (a + k))))
     | _, _ => (m, "bad-op")
   | _ => (m, "bad-op")
 
